@@ -3,6 +3,9 @@ import Lemmas.BitSetSearch
 import Lemmas.BitSetBounds
 import Lemmas.BitSetHeapLemmas
 import Lemmas.BitSetMasks
+import Lemmas.BitSetMachineLemmas
+import Lemmas.BitSetLaws
+import Lemmas.BitSetCap
 /-! # C08 — BitSet is observationally a finite set of non-negative integers
 
 Property theorems only.  The executable model is `Model/BitSet.lean` (`BS.*`, run against `xmath.BitSet` on every
@@ -12,6 +15,12 @@ check through `BS.applyOp` and the query functions); helper lemmas are in `Lemma
 * specification: a pair of predicates `Nat → Bool` (`BS.NSet`) subjected to the same calls (`BS.specOp`);
 * `BS.Inv b` — the cached count `b.set` equals the number of one bits of the storage (`BS.card`), which is the number
   of members (`count_is_cardinality`).
+
+Sections: State/Count; single-index and range mutators; histories (`run_refines`, `count_card`); the six searches;
+storage calls, `Load`, `Equal`; the property for histories on the mathematical set alone (`history_observations`,
+`history_equal`); no out-of-range access (`Model/BitSetChecked.lean`); no shared storage (`Model/BitSetHeap.lean`, with the
+spare-capacity contrast of `Lemmas/BitSetCap.lean`); range masks; no `int` wrap (`Model/BitSetMachine.lean`);
+observational laws (`Lemmas/BitSetLaws.lean`).  The driver executes the heap form and the machine-`int` form of every line.
 
 Everything is proved outright.  Whatever speaks about `Count` after a range operation goes through the whole-word fast
 path, which calls the repository's SWAR routine `countSetBits`; that this routine is the population count on every
@@ -32,6 +41,14 @@ theorem bitIndexForMask_total (x : Nat) : bitIndexForMask (wordMask x) = x % 64 
 /-- **State(i)** is true exactly for the members -/
 theorem state_spec (b : T) (i : Nat) : state b i = mem b i := state_eq_mem b i
 
+/-- the driver's `State` scan (lines `mem`, `obs`: 66 words, bit by bit through `state`) runs on the first 66 words of the
+    storage only — a window of the storage answers `State` like the whole storage for every index inside the window -/
+theorem state_scan_window (b : T) (n i : Nat) (h : i < n * 64) :
+    state { b with data := b.data.take n } i = state b i := by
+  rw [state_eq_mem, state_eq_mem]
+  unfold mem bit
+  simp only
+  rw [getW_take, if_pos (by omega)]
 /-- members lie below the capacity: the set is finite -/
 theorem mem_finite (b : T) (x : Nat) (h : mem b x = true) : x < b.data.length * 64 := bit_lt _ _ h
 
@@ -148,6 +165,7 @@ theorem count_card_norange (ops : List Op)
 
 /-! ## the six searches: the extreme matching index or the documented sentinel -/
 
+
 /-- **NextSet** -/
 theorem nextSet_spec (b : T) (s : Nat) :
     (nextSet b s = -1 ∧ ∀ x, s ≤ x → mem b x = false)
@@ -261,6 +279,43 @@ theorem equal_iff (a b : T) (ha : Inv a) (hb : Inv b) : equal a b = true ↔ ∀
 theorem equal_iff_raw (a b : T) : equal a b = true ↔ (a.set = b.set ∧ ∀ x, mem a x = mem b x) :=
   BS.equal_iff_raw a b
 
+/-! ## the property for histories, stated on the mathematical set alone -/
+
+/-- **the first sentence of the property, for histories, in terms of the mathematical set alone** -/
+theorem history_observations (ops : List Op) (r : Reg) :
+    let b := (run ops).get r
+    let S := (specRun ops).get r
+    (∀ i, state b i = S i)
+    ∧ (∀ N, (∀ x, S x = true → x < N) → count b = Int.ofNat ((List.range N).filter S).length)
+    ∧ (∀ s, (nextSet b s = -1 ∧ ∀ x, s ≤ x → S x = false)
+          ∨ ∃ m : Nat, nextSet b s = Int.ofNat m ∧ s ≤ m ∧ S m = true ∧ ∀ x, s ≤ x → x < m → S x = false)
+    ∧ (∀ s, (previousSet b s = -1 ∧ ∀ x, x ≤ s → S x = false)
+          ∨ ∃ m : Nat, previousSet b s = Int.ofNat m ∧ m ≤ s ∧ S m = true ∧ ∀ x, m < x → x ≤ s → S x = false)
+    ∧ ((firstSet b = -1 ∧ ∀ x, S x = false) ∨ ∃ m : Nat, firstSet b = Int.ofNat m ∧ S m = true ∧ ∀ x, x < m → S x = false)
+    ∧ ((lastSet b = -1 ∧ ∀ x, S x = false) ∨ ∃ m : Nat, lastSet b = Int.ofNat m ∧ S m = true ∧ ∀ x, m < x → S x = false)
+    ∧ (∀ s, ∃ m : Nat, nextClear b s = Int.ofNat m ∧ s ≤ m ∧ S m = false ∧ ∀ x, s ≤ x → x < m → S x = true)
+    ∧ (∀ s, (previousClear b s = -1 ∧ ∀ x, x ≤ s → S x = true)
+          ∨ ∃ m : Nat, previousClear b s = Int.ofNat m ∧ m ≤ s ∧ S m = false ∧ ∀ x, m < x → x ≤ s → S x = true)
+    ∧ (∀ x, bit (data b).2 x = S x) := by
+  intro b S
+  have e : mem b = S := funext (run_mem ops r)
+  refine ⟨fun i => by rw [state_eq_mem, e], fun N hN => ?_, fun s => ?_, fun s => ?_, ?_, ?_, fun s => ?_, fun s => ?_, fun x => ?_⟩
+  · rw [← e] at hN ⊢; exact count_eq_members b (run_rel ops r).1 N hN
+  · have := BS.nextSet_spec b s; rwa [e] at this
+  · have := BS.previousSet_spec b s; rwa [e] at this
+  · have := BS.firstSet_spec b; rwa [e] at this
+  · have := BS.lastSet_spec b; rwa [e] at this
+  · have := BS.nextClear_spec b s; rwa [e] at this
+  · have := BS.previousClear_spec b s; rwa [e] at this
+  · rw [← e]; exact trim_bit b x
+
+/-- **Equal** between the bit sets of any two histories is equality of the mathematical sets -/
+theorem history_equal (ops ops' : List Op) (r r' : Reg) :
+    equal ((run ops).get r) ((run ops').get r') = true ↔ ∀ x, (specRun ops).get r x = (specRun ops').get r' x := by
+  rw [BS.equal_iff _ _ (run_rel ops r).1 (run_rel ops' r').1]
+  constructor
+  · intro h x; rw [← run_mem ops r x, ← run_mem ops' r' x]; exact h x
+  · intro h x; rw [run_mem ops r x, run_mem ops' r' x]; exact h x
 /-! ## no index-out-of-range panic: every word access of every operation is in bounds
 
 `Model/BitSetChecked.lean` repeats the transcription with checked accesses: `b.data[i]` is `none` (Go: run-time panic
@@ -336,6 +391,24 @@ theorem aliasing_contrast :
        (copyOldH h .A .A).view .A = { data := [0#64, 0#64], set := 2 }
        ∧ (applyOpH h (.copy .A .A)).view .A = h.view .A) := by decide
 
+/-- CONTRAST (spare capacity, the two cooperating sites of ind6-c08-b): the heap model treats a slice as a whole array
+    because the code makes every slice with `len == cap` and never reslices.  On slices WITH spare capacity
+    (`Lemmas/BitSetCap.lean`): (1) a `Copy` that reuses the receiver's backing array denotes the right bit set, and
+    (2) stays right under the code's `EnsureCapacity`, which copies `len` words into a zeroed array; (3) an
+    `EnsureCapacity` that reslices within the capacity is the code's on every tight slice; (4) together they are wrong:
+    after `Copy` from a shorter set, growing again resurrects a member (130) that the mathematical set does not
+    contain, and the count is no longer the cardinality — while edit 1 with the code's `EnsureCapacity` is right -/
+theorem reslice_contrast :
+    (∀ c o, (copyReuse c o).view = copy c.view o)
+    ∧ (∀ c n, c.len ≤ c.arr.length → (ensureFresh c n).view = ensureCapacity c.view n)
+    ∧ (∀ c n, c.Tight → ensureReslice c n = ensureFresh c n)
+    ∧ (let c : CapT := { arr := [1#64, 0#64, 4#64], len := 3, set := 2 }
+       let c2 := ensureReslice (copyReuse c (setBit {} 1)) 3
+       mem c2.view 130 = true ∧ mem (ensureCapacity (copy c.view (setBit {} 1)) 3) 130 = false
+       ∧ c2.view.set ≠ Int.ofNat (card c2.view.data)
+       ∧ (ensureFresh (copyReuse c (setBit {} 1)) 3).view = ensureCapacity (copy c.view (setBit {} 1)) 3) :=
+  ⟨copyReuse_view, fun c n h => (ensureFresh_view c n h).1, ensureReslice_tight, by decide⟩
+
 /-! ## range masks: a word-at-a-time implementation computes what the per-bit loops compute
 
 Groundwork and documentation (`Lemmas/BitSetMasks.lean`): the shape `MaxUint64 << startBit`, `MaxUint64 >> (63 - endBit)`
@@ -382,6 +455,108 @@ theorem mask_contrast :
     ∧ (5 : Int) + popcount (rangeMask 0 3) ≠ (bitLoop bitFlip 0x3#64 5 0 4).2
     ∧ (maskFlip 0x3#64 5 (rangeMask 0 3)).2 = (bitLoop bitFlip 0x3#64 5 0 4).2 := by decide
 
+/-! ## no `int` overflow: the index arithmetic of the source never wraps
+
+`Model/BitSetMachine.lean` repeats the checked transcription with Go's 64-bit `int` made explicit: every `int` expression
+of the source that can grow (`i + 1`, `i2 + 1`, `size * 2`, `len(b.data) << 6`, `(maximum+1)<<6 - 1`, `i<<6 + j`,
+`maximum * 64`, every `i++`) is `none` when its mathematical value exceeds `math.MaxInt`.  The driver executes these
+forms (a wrapped index would print `overflow`), with arguments up to `math.MaxInt` for the calls that never allocate. -/
+
+/-- **every mutating call**: on two bit sets whose storage is addressable with an `int` (`Fits`: `len(b.data)*64 ≤
+    math.MaxInt`, i.e. fewer than 2^57 words) and for every argument up to `math.MaxInt`, no index expression wraps and
+    no word access is out of range; the checked execution computes what the total model computes -/
+theorem no_int_overflow (p : Pair) (op : Op) (hp : ∀ r, Fits (p.get r)) (ha : ∀ a ∈ op.args, a ≤ maxInt) :
+    applyOpM p op = some (applyOp p op) := applyOpM_eq p op hp ha
+
+/-- **every history** from two zero-value bit sets whose storing calls are `Small` (`Set`/`Flip`/`SetRange`/`FlipRange`
+    below index 2^61, `EnsureCapacity` up to 2^55 words, `Load` of up to 2^56 words; `Clear`/`ClearRange` with any
+    argument up to `math.MaxInt`) runs without a wrapped `int`, and both storages stay within 2^56 words (so `Fits` is
+    kept: the hypothesis of `no_int_overflow` is an invariant of such histories, not an assumption about them) -/
+theorem no_int_overflow_run (ops : List Op) (h : ∀ op ∈ ops, op.Small) :
+    runM ops = some (run ops) ∧ ∀ r, ((run ops).get r).data.length ≤ 2 ^ 56 ∧ Fits ((run ops).get r) :=
+  ⟨runM_eq ops h, fun r => ⟨by have := run_lenB ops h r; unfold LenB at this; rw [lenBound_eq] at this; exact this,
+    lenB_fits _ (run_lenB ops h r)⟩⟩
+
+/-- **every search**, every start position (no bound on `i`): `i<<6 + j`, `len(b.data) << 6` (`LastSet`) and
+    `maximum * 64` (`NextClear`) do not wrap on a storage that `Fits` -/
+theorem no_int_overflow_queries (b : T) (i : Nat) (h : Fits b) :
+    nextSetM b i = some (nextSet b i) ∧ previousSetM b i = some (previousSet b i)
+    ∧ nextClearM b i = some (nextClear b i) ∧ previousClearM b i = some (previousClear b i)
+    ∧ firstSetM b = some (firstSet b) ∧ lastSetM b = some (lastSet b) :=
+  ⟨nextSetM_eq b i h, previousSetM_eq b i h, nextClearM_eq b i h, previousClearM_eq b i h, firstSetM_eq b h, lastSetM_eq b h⟩
+
+/-- the cached count lies in `[0, 64·len(b.data)]` whenever it is the cardinality: it fits an `int` when the storage does
+    (this is why `set` may stay an unbounded `Int` in the checked model) -/
+theorem count_bounds (b : T) (h : Inv b) : 0 ≤ count b ∧ count b ≤ Int.ofNat (b.data.length * 64) := BS.count_bounds b h
+
+/-- CONTRAST: the checked arithmetic does see a wrap.  (1) `ClearRange` rewritten over the half-open range
+    `[start, min(end+1, len<<6))` (the shape of ind6-c08-a) wraps at `end = math.MaxInt` on EVERY bit set, while (2) the
+    code's inclusive, word-clamped form does not; (3) the hypothesis `Fits` is sharp: on a storage of 2^57 words or more
+    `LastSet` wraps; (4) `EnsureCapacity` wraps (`size *= 2`) once the storage has 2^62 words -/
+theorem int_overflow_contrast (b : T) (s : Nat) (hs : s ≤ maxInt) :
+    clearRangeHalfOpenM b s maxInt = none
+    ∧ (Fits b → clearRangeM b s maxInt = some (clearRange b s maxInt))
+    ∧ (¬ Fits b → lastSetM b = none)
+    ∧ (∀ n, maxInt < b.data.length * 2 → b.data.length < n → ensureCapacityM b n = none) :=
+  ⟨clearRangeHalfOpenM_overflow b s hs, clearRangeM_eq b s maxInt, lastSetM_overflow b, fun n => ensureCapacityM_overflow b n⟩
+
+/-- **what the driver executes, line by line**: on the state reached by any session of `Small` calls (the caller's
+    scribbles included), the machine-`int`, access-checked execution of the next call on the bit sets the heap DENOTES
+    succeeds and yields exactly what the heap execution of that call denotes — so the driver's `panic` / `overflow`
+    outputs are unreachable, and its two executions of a line can never disagree -/
+theorem checked_agrees_with_heap (evs : List Ev) (op : Op) (h : ∀ o ∈ opsOf evs, o.Small) (ho : op.Small) :
+    applyOpM (runH evs).denote op = some (applyOpH (runH evs) op).denote := by
+  obtain ⟨hs, hd⟩ := heap_refines evs
+  rw [(applyOpH_spec _ hs op).1, hd]
+  exact applyOpM_eq _ _ (fun r => lenB_fits _ (run_lenB _ h r)) (small_args op ho)
+/-! ## observational: a bit set is its set of members and nothing else
+
+The storage of a bit set depends on its whole history (doubling growth, `Trim`, `Copy` of a longer or shorter set).
+These theorems say that none of it can be observed. -/
+
+/-- **Data() is a canonical form**: two bit sets have the same members exactly when `Data()` returns the same words
+    (no invariant needed) -/
+theorem data_canonical (a b : T) : (∀ x, mem a x = mem b x) ↔ (data a).2 = (data b).2 := BS.data_canonical a b
+
+/-- **Trim** (and the trimming inside `Data`) is idempotent, and leaves a minimal storage alone -/
+theorem trim_idempotent (b : T) :
+    trim (trim b) = trim b ∧ (data (data b).1).2 = (data b).2
+    ∧ ((b.data = [] ∨ getW b.data (b.data.length - 1) ≠ 0#64) → trim b = b) :=
+  ⟨trim_idem b, congrArg T.data (trim_idem b), trim_of_minimal b⟩
+
+/-- **the range forms are the single-index forms iterated** over `min(start,end) … max(start,end)`: same members and
+    same `Count` (whole-word fast path, reversal and clamping included) -/
+theorem ranges_are_iterated_singles (b : T) (s e : Nat) (hb : Inv b) :
+    ((∀ x, mem (setRange b s e) x = mem ((rangeIdx s e).foldl setBit b) x)
+      ∧ count (setRange b s e) = count ((rangeIdx s e).foldl setBit b))
+    ∧ ((∀ x, mem (clearRange b s e) x = mem ((rangeIdx s e).foldl clearBit b) x)
+      ∧ count (clearRange b s e) = count ((rangeIdx s e).foldl clearBit b))
+    ∧ ((∀ x, mem (flipRange b s e) x = mem ((rangeIdx s e).foldl flipBit b) x)
+      ∧ count (flipRange b s e) = count ((rangeIdx s e).foldl flipBit b)) :=
+  ⟨setRange_iterated b s e hb, clearRange_iterated b s e hb, flipRange_iterated b s e hb⟩
+
+/-- **Equal** is an equivalence relation (as written, no invariant needed) -/
+theorem equal_equivalence (a b c : T) :
+    equal a a = true ∧ equal a b = equal b a ∧ (equal a b = true → equal b c = true → equal a c = true) :=
+  ⟨equal_refl a, equal_symm a b, equal_trans a b c⟩
+
+/-- **every observation is a function of the members**: two bit sets with the same members (and exact counts) answer
+    `State`, `Count`, `FirstSet`, `LastSet`, the four searches from every start, `Data` and `Equal` (either side, against
+    any third bit set) identically — whatever their capacities (`ObsEq` is that conjunction, `Lemmas/BitSetLaws.lean`) -/
+theorem observational (a b : T) (ha : Inv a) (hb : Inv b) (h : ∀ x, mem a x = mem b x) : ObsEq a b :=
+  obsEq_of_mem a b ha hb h
+
+/-- **Data, Trim, EnsureCapacity never change the set — anywhere in a history**: erasing every such call from a history
+    changes no answer of any later observation (although it does change the storage, see the `example` below) -/
+theorem storage_calls_unobservable (ops : List Op) (r : Reg) :
+    ObsEq ((run ops).get r) ((run (ops.filter (fun o => !o.isStorageOnly))).get r) :=
+  obsEq_of_mem _ _ (run_rel ops r).1 (run_rel _ r).1 (run_erase_mem ops r)
+
+/-- two histories (of either bit set) that denote the same mathematical set are indistinguishable -/
+theorem histories_observational (ops ops' : List Op) (r r' : Reg)
+    (h : ∀ x, (specRun ops).get r x = (specRun ops').get r' x) : ObsEq ((run ops).get r) ((run ops').get r') :=
+  obsEq_of_mem _ _ (run_rel ops r).1 (run_rel ops' r').1 (fun x => by rw [run_mem ops r x, run_mem ops' r' x, h])
+
 /-! non-vacuity: the invariant holds for the zero value and a concrete history; `countSetBits` evaluated at sample
     words; `equal` sees through different capacities -/
 example : BS.Inv ({} : T) := rfl
@@ -389,5 +564,13 @@ example : countSetBits 0xdeadbeef12345678#64 = Int.ofNat (popcount 0xdeadbeef123
 example : countSetBits (BitVec.allOnes 64) = 64 := by decide
 example : equal (ensureCapacity (setBit {} 5) 8) (setBit {} 5) = true := by decide
 example : (run [.set .A 5, .copy .B .A, .ensure .B 8]).b.data.length = 8 := by decide
+
+/-- the storage does depend on the storage-only calls that `storage_calls_unobservable` erases -/
+example : (run [.set .A 5, .ensure .A 40, .set .A 700, .clear .A 700, .trim .A, .data .A]).a.data.length
+    ≠ (run [.set .A 5, .set .A 700, .clear .A 700]).a.data.length := by decide
+/-- `Small` is satisfiable, with the non-allocating calls at `math.MaxInt` -/
+example : ∀ op ∈ [Op.set .A 5, .setRange .B 70 2000000000000000000, .clearRange .A 0 maxInt], op.Small := by
+  simp [Op.Small, maxInt]
+example : Fits (setBit {} 100) := by unfold Fits; decide
 
 end C08
